@@ -8,6 +8,7 @@ From SU.Model Require Import Quantizer.
 From SU.Spec Require Import QuantSpec.
 From SU.Proofs Require Import QuantRecordProofs.
 From SU.Proofs Require Import QuantExtraProofs.
+From SU.Proofs Require Import QuantKillers.
 Open Scope R_scope.
 
 (** every conversion, on both paths, reports stairstep = note number / 12 (the correctly
@@ -72,6 +73,14 @@ Theorem C19_convert_idem : forall ops v, wf_ops ops ->
 Proof. exact convert_idem. Qed.
 Close Scope Z_scope.
 
+(** the power-on record and scale *)
+Open Scope Z_scope.
+Theorem C19_initial_state :
+  c_note conv_new = 0 /\ c_stair conv_new = f_MIN /\ c_frac conv_new = f_0 /\
+  q_cached quant_new = conv_new /\ q_allowed quant_new = 4095.
+Proof. exact KQ_initial_state. Qed.
+Close Scope Z_scope.
+
 Print Assumptions C19_stairstep.
 Print Assumptions C19_fraction.
 Print Assumptions C19_recompose.
@@ -79,3 +88,4 @@ Print Assumptions C19_chromatic_fraction.
 Print Assumptions C19_window_fraction.
 Print Assumptions C19_ex_window_fraction.
 Print Assumptions C19_convert_idem.
+Print Assumptions C19_initial_state.
